@@ -10,6 +10,8 @@
 #include "instruction_data.h"
 #include "instr_parser.h"
 #include "enums.h"
+#include "instructions.h"
+#include "common.h"
 
 static const char *const VALID[] = { VALID_LIST 0 };
 
@@ -19,14 +21,14 @@ void harness(void) {
    * (see DESIGN.md, threats to validity), and the lookup's start index is
    * derived from the first letter */
   char kinds[5];
-  unsigned long n = IN(0);
-  ASSUME(n <= 4);
+  unsigned long nk = IN(0);
+  ASSUME(nk <= 4);
   for (int i = 0; i < 4; i++) {
     unsigned long k = IN(1 + i);
     ASSUME(k < 5);
-    if (i == 0) { ASSUME(FIRST == 0 ? n == 0 : (n >= 1 && "rvymi"[k] == FIRST)); }
+    if (i == 0) { ASSUME(FIRST == 0 ? nk == 0 : (nk >= 1 && "rvymi"[k] == FIRST)); }
     if (i == 0) kinds[0] = (char)FIRST;     /* a constant, not an ite over n */
-    else kinds[i] = (unsigned long)i < n ? "rvymi"[k] : 0;
+    else kinds[i] = (unsigned long)i < nk ? "rvymi"[k] : 0;
   }
   kinds[4] = 0;
   int valid = 0;
@@ -41,6 +43,14 @@ void harness(void) {
   char k2[5]; for (int i = 0; i < 5; i++) k2[i] = kinds[i];
   operand_format f = get_opd_format(k2);
   int key = f == opd_error ? INSTR_ERROR : str_to_instr_key(mn, f);
+  /* the format `n` stands for no operand and for one immediate; line_to_instr
+   * tells them apart after the lookup by the row's operand encoding.  That
+   * rule is mirrored here; that line_to_instr applies it is decided by the
+   * whole-pipeline queries c10.<mnemonic>.kinds_none / kinds_i. */
+  if (key >= 0 && f == n) {
+    int takes_imm = (int)INSTR_TABLE[key].encode_operand != NA;
+    if (takes_imm != (kinds[0] == 'i')) key = INSTR_ERROR;
+  }
   if (key >= 0) CHECK(valid, "an accepted operand-kind combination is one x86-64 defines for this mnemonic");
 #else
   /* through the public API with representative operands of each kind */
@@ -49,7 +59,7 @@ void harness(void) {
   int accepted = 0;
   for (int variant = 0; variant < 3 && !accepted; variant++) {
     char line[128]; int p = snprintf(line, sizeof line, "%s", MNEMONIC);
-    for (unsigned long i = 0; i < n; i++) {
+    for (unsigned long i = 0; i < nk; i++) {
       int k = (int)(strchr("rvymi", kinds[i]) - "rvymi");
       p += snprintf(line + p, sizeof line - p, "%s%s", i ? ", " : " ", OPS[k][variant]);
     }
